@@ -94,7 +94,7 @@ def _drive(args):
         enc = ('latin_1', 'cp500')[tid % 2]
         blocked = bool(tid & 2)
         via_cli = tid % 5 == 0
-        latin = not via_cli and tid % 3 == 0
+        latin = (not via_cli and tid % 3 == 0) or tid % 10 == 5
         n = r.choice((1, 2, 5, 20)) if tid % 13 else 200
         rows = [gen_row(r, bc, cols, latin) for _ in range(n)]
         text = to_csv(rows, cols)
@@ -106,13 +106,23 @@ def _drive(args):
                 if via_cli:
                     p = os.path.join(wd, 'c20-%d-%d.csv' % (os.getpid(), tid))
                     open(p, 'w', newline='').write(text)
-                    mci_csv_to_ipm.cli_run(in_filename=p, out_filename=p + '.ipm', out_encoding=enc, no1014blocking=not blocked)
-                    ipm = open(p + '.ipm', 'rb').read()
-                    rc = mci_ipm_to_csv.cli_run(in_filename=p + '.ipm', out_filename=p + '.out.csv', in_encoding=enc,
-                                                no1014blocking=not blocked)
+                    if tid % 10 == 5:
+                        # CSV text encoding given, IPM encoding left to its default (latin_1) on both commands
+                        enc = res['enc'] = 'latin_1'
+                        open(p, 'w', newline='', encoding='utf-8').write(text)
+                        mci_csv_to_ipm.cli_run(in_filename=p, out_filename=p + '.ipm', in_encoding='utf-8',
+                                               no1014blocking=not blocked)
+                        ipm = open(p + '.ipm', 'rb').read()
+                        rc = mci_ipm_to_csv.cli_run(in_filename=p + '.ipm', out_filename=p + '.out.csv', out_encoding='utf-8',
+                                                    no1014blocking=not blocked)
+                    else:
+                        mci_csv_to_ipm.cli_run(in_filename=p, out_filename=p + '.ipm', out_encoding=enc, no1014blocking=not blocked)
+                        ipm = open(p + '.ipm', 'rb').read()
+                        rc = mci_ipm_to_csv.cli_run(in_filename=p + '.ipm', out_filename=p + '.out.csv', in_encoding=enc,
+                                                    no1014blocking=not blocked)
                     if rc == -1:
                         raise RuntimeError('mci_ipm_to_csv reported an error')
-                    outtext = open(p + '.out.csv', newline='').read()
+                    outtext = open(p + '.out.csv', newline='', encoding='utf-8' if tid % 10 == 5 else None).read()
                     for q in (p, p + '.ipm', p + '.out.csv'):
                         os.unlink(q)
                 else:
